@@ -228,7 +228,8 @@ def main():
     lemma, st = props.units_for('C02', quick)
     jobs = [('<BDD as PartialEq>::eq on canonical diagrams k=3', bddcore.unit_bdd_eq, (3, {}))]
     for sh in shapes:
-        kk = 2 if repr(sh).count("'fp'") >= 2 else k
+        fpn = repr(sh).count("'fp'")
+        kk = 2 if (fpn >= 2 or (fpn >= 1 and ("'cc'" in repr(sh) or "'cv'" in repr(sh)))) else k
         jobs.append(('free %r k=%d' % (sh, kk), unit_free, (sh, kk, {})))
         if evalcore.shape_size(sh) <= 3 and len(fsem.symbol_occurrences(Sketch(sh, kk).tree)) <= 5:
             jobs.append(('constructor %r k=%d' % (sh, kk), unit_constructor, (sh, kk, {})))
